@@ -3410,7 +3410,7 @@ Box<ITV>
   }
 
   // Any preimage of an empty polyhedron is empty.
-  if (marked_empty()) {
+  if (is_empty()) {
     return;
   }
 
